@@ -546,9 +546,23 @@ def rule_editing(rep, pdb):
         det += "; square: strict upper triangle exchange (i,j)<->(j,i)=%s" % oks
         ok = okn and oks
         rep.add("edit/transpose_in_place", rule, ok, fn["body"], det, where=loc(fn["body"]))
-        rets_ = [x for x in walk(fn["body"]) if x.get("k") == "Ret"]
-        rep.add("edit/transpose_in_place/every-path", "transpose_in_place has no early return: also a 0 x n matrix (no entries at all) must come out as n x 0 - the shape is exchanged on every path",
-                not rets_, rets_[0] if rets_ else fn["body"], "early returns: %d" % len(rets_))
+        rets_ = []
+        for x in walk(fn["body"]):
+            if x.get("k") != "Ret":
+                continue
+            # a return that ends a branch which did its work (`.. self.mat = t; swap(rows, cols); return;`) is the if/else written with an exit; a return with
+            # nothing written before it in its block leaves the matrix as it was
+            blk_ = next((a for a in _anc(x) if a.get("k") == "Block"), None)
+            before = []
+            for st_ in (blk_.get("stmts", []) if blk_ is not None else []):
+                if any(z is x for z in walk(st_)):
+                    break
+                before.append(st_)
+            wrote = any(z.get("k") in ("Assign", "AssignOp") or (z.get("k") in ("MethodCall", "Call") and str(z.get("name") or callee_path(z) or "").endswith("swap")) for st_ in before for z in walk(st_))
+            if not wrote:
+                rets_.append(x)
+        rep.add("edit/transpose_in_place/every-path", "transpose_in_place has no early return that leaves the matrix untouched: also a 0 x n matrix (no entries at all) must come out as n x 0 - the shape "
+                "is exchanged on every path", not rets_, rets_[0] if rets_ else fn["body"], "early returns before any write: %d" % len(rets_))
     # transpose = clone + transpose_in_place
     rule = "transpose returns a clone of self transposed in place"
     fn = _need(rep, pdb, "%s::transpose" % M, "edit/transpose", rule)
